@@ -4,6 +4,7 @@ import (
 	"context"
 	"sync"
 	"sync/atomic"
+	"time"
 
 	"github.com/samber/ro"
 )
@@ -313,6 +314,8 @@ type OutcomesSrc struct {
 	Scripts [][]Ev
 	// Async: each attempt plays its script from a goroutine of its own.
 	Async bool
+	// StartDelay: an asynchronous attempt waits this long before its first notification.
+	StartDelay time.Duration
 	// Order records, per subscription start, whether the previous attempt's
 	// teardown had already run (C15).
 	mu2          sync.Mutex
@@ -353,6 +356,9 @@ func (o *OutcomesSrc) Observable() ro.Observable[int] {
 			}
 		}
 		play := func() {
+			if o.Async && o.StartDelay > 0 {
+				time.Sleep(o.StartDelay)
+			}
 			for i, e := range script {
 				if e.K != 'N' {
 					o.mu2.Lock()
